@@ -62,7 +62,9 @@ class Ctx:
         self.tier = tier
         self.seed = seed
         self.rng = random.Random((seed * 1000003) ^ int(hashlib.sha1(prop.encode()).hexdigest()[:8], 16))
-        self.work = os.path.join(WORK, prop)
+        # one scratch directory per run, so that two runs of the same property (quick and thorough, or two seeds)
+        # can execute at the same time without reading each other's case files
+        self.work = os.path.join(WORK, prop, "run-%d" % os.getpid())
         os.makedirs(self.work, exist_ok=True)
         self.t0 = time.time()
         self.obligations = []  # (name, ok, detail)
@@ -351,6 +353,11 @@ def finish(ctx, mod, level):
     okv, msg = validate_evidence(evpath)
     if not okv:
         print("WARNING: evidence file does not validate: " + msg)
+    try:
+        import shutil
+        shutil.rmtree(ctx.work, ignore_errors=True)
+    except Exception:
+        pass
     for l in lines:
         print(l)
     print("%s %s: obligations %d/%d, cases %d (%d distinct non-trivial), known findings reproduced %d, violations %d, %.1fs"
